@@ -469,8 +469,8 @@ class GPR(Module):
         """
         if knockouts is None:
             knockouts = set()
-        if knockouts is str:
-            knockouts = list(knockouts)
+        if isinstance(knockouts, str):
+            knockouts = {knockouts}
         if self.body:
             return self._eval_gpr(self.body, knockouts=knockouts)
         else:
